@@ -45,8 +45,12 @@ def expected_tree(chain):
     return [html(m)], kids(modes, None)
 
 
+PORTS: dict = {}
+
+
 def read_dot(src):
     nodes, edges, order = {}, [], []
+    PORTS.clear()
     for line in src.splitlines():
         if not line.strip() or line.startswith(HEADER):
             continue
@@ -59,6 +63,7 @@ def read_dot(src):
             if any(ports) and ports != [str(i) for i in range(len(ports))]:
                 raise ValueError(f"ports of {mn.group(1)} are {ports}")
             nodes[mn.group(1)] = [c for _, c in cells]
+            PORTS[mn.group(1)] = {int(p) for p in ports if p != ""}
             continue
         me = EDGE.match(line)
         if me:
@@ -91,8 +96,8 @@ def actual_tree(nodes, edges):
     for src, port, dst, label in edges:
         if src not in nodes:
             raise ValueError(f"edge from undeclared node {src}")
-        if port is not None and port >= len(nodes[src]):
-            raise ValueError(f"edge from a slot that does not exist: {src}:p{port}")
+        if port is not None and (port >= len(nodes[src]) or port not in PORTS.get(src, set())):
+            raise ValueError(f"edge from a slot that does not exist: {src}:p{port} (slots {sorted(PORTS.get(src, set()))})")
     return tree
 
 
@@ -114,6 +119,8 @@ def _unique_bfs(chain, counter):
     for mode in modes:
         counter[0] += 1
         mode["bf"] = [0.001, 1e-05, 0.25, 1.0, 3][counter[0] % 5] + counter[0]
+        if counter[0] % 6 == 0:
+            mode["bf"] = [0, 0.0, 1][(counter[0] // 6) % 3]        # zero (and one) are branching fractions like any other
         for x in mode["fs"]:
             if not isinstance(x, str):
                 _unique_bfs(x, counter)
@@ -143,8 +150,8 @@ def check_chain(chain, run_dot=False):
     _SEEN_IDS.update(ids)
     if run_dot:
         r = subprocess.run(["dot", "-Tcanon"], input=src, capture_output=True, text=True, timeout=60)
-        if r.returncode != 0:
-            return f"Graphviz rejects the source: {r.stderr[:200]}; source {src!r}"
+        if r.returncode != 0 or r.stderr.strip():
+            return f"Graphviz rejects the source or warns about it: {r.stderr[:200]}; source {src!r}"
     return None
 
 
